@@ -47,7 +47,8 @@ else:
     subprocess.run(["rsync", "-a", "--exclude", "_build", "--exclude", ".git", "--exclude", "build", "/repo/", scratch + "/"], check=True)
     r = subprocess.run(["git", "apply", patch], cwd=scratch)
     env["DSA_REPO"] = scratch
-    env["DSA_EVIDENCE_DIR"] = os.path.join(HERE, "out", "mut_evidence")
+    env["DSA_EVIDENCE_DIR"] = os.path.join(scratch, "_evidence")
+    env["DSA_REPLAY_DIR"] = os.path.join(scratch, "_replay")
 if r.returncode != 0:
     print("patch does not apply")
     if scratch:
